@@ -64,6 +64,9 @@ CAT = {
              ('w', 3, (0.0, 0.0, 0.0), (0.0, 0.0, 1.5), 0.002)], True),
     # a helix of exactly two segments (three segment ends: a 3 x 3 array of points) continued by a wire from its last end
     'G30': ([('h', 2, 0.3, 0.6, 0.002, 0.3, 0.25), ('w', 3, (-0.3, 0.0, 0.3), (-0.5, 0.9, 0.8), 0.002)], False),
+    # an L of two wires and a third wire whose end is 5 mm from the corner: ten junction tolerances away, NOT joined (segments 0.5 m)
+    'G31': ([('w', 3, (0.0, 0.0, 0.5), (0.0, 0.0, 2.0), 0.002), ('w', 3, (0.0, 0.0, 2.0), (1.5, 0.0, 2.0), 0.002),
+             ('w', 3, (0.0, 0.0, 2.005), (1.5, 0.0, 2.005), 0.002)], False),
     'G16': ([('w', 4, (0.2, 0.1, 2.0), (0.0, 0.0, 0.0), 0.002),
              ('w', 2, (0.2, 0.1, 2.0), (1.1, 0.4, 2.1), 0.003)], True),
 }
